@@ -71,6 +71,7 @@ class Ctx:
         self.reach = self.cg.reachable(roots)
         self._roles = None
         self._exprs = {}
+        self.view_fallbacks = []
 
     # ------------------------------------------------------------------ helpers
     def expr(self, body):
@@ -84,7 +85,18 @@ class Ctx:
         """The body with crate-local plain function calls virtually inlined (DESIGN §3.2); with
         sugar=True combinators and iterator pipelines are expanded too (engine.desugar)."""
         from .inline import inlined
-        return inlined(self.facts, body, skip=skip, tag=tag, sugar=sugar)
+        # the view is an aid: if building it trips over an unforeseen MIR shape, fall back to the
+        # plainer view (the rules then see the function as written) instead of failing the check
+        try:
+            return inlined(self.facts, body, skip=skip, tag=tag, sugar=sugar)
+        except Exception as e:          # noqa: BLE001 - recorded, not hidden
+            self.view_fallbacks.append("%s: %s view failed (%s: %s)" % (body.id, "sugar" if sugar else "inline", type(e).__name__, e))
+            if sugar:
+                try:
+                    return inlined(self.facts, body, skip=skip, tag=(tag or "x") + "-nosugar", sugar=False)
+                except Exception:       # noqa: BLE001
+                    pass
+            return body
 
     def reachable_bodies(self, hand_written=True):
         out = []
